@@ -249,6 +249,8 @@ func init() {
 			{Name: "streams", QShards: 2, TShards: 8, Run: c18Streams_},
 			{Name: "memory", TShards: 4, Run: c18Memory},
 			{Name: "faulty", QShards: 2, TShards: 8, Run: c18Faulty},
+			{Name: "histories", QShards: 2, TShards: 6, Run: codecHistories(c06Formats...)},
+			{Name: "deepstops", QShards: 2, TShards: 6, Run: c18DeepStops},
 			{Name: "bigfiles", QShards: 4, TShards: 6, StallSec: 90, Run: c18BigFiles},
 		},
 	})
@@ -270,6 +272,7 @@ func init() {
 			{Name: "wide", TShards: 4, Run: c19Wide},
 			{Name: "parallel", Race: true, Run: treeParallel},
 			firstCallUnit(firstTree),
+			firstParallelUnit(parTree),
 		},
 	})
 }
@@ -899,6 +902,74 @@ func c19Recross(c *Ctx) {
 			k.Count("recross_trees", 1)
 			k.Nontrivial([]byte(fmt.Sprint(sh, cnt)))
 		})
+	}
+}
+
+// combTree: a spine of the given depth; every spine node also has `legs` leaf
+// children, placed after the spine child (left comb: the walk goes down through
+// a NON-last child, so every level still has work pending), before it (right
+// comb), or on both sides.
+func combTree(depth, legs int, side int) *newick.Node {
+	root := &newick.Node{}
+	cur := root
+	for d := 1; d < depth; d++ {
+		next := &newick.Node{}
+		var kids []*newick.Node
+		for l := 0; l < legs; l++ {
+			if side == 1 || side == 2 && l%2 == 0 {
+				kids = append(kids, &newick.Node{})
+			}
+		}
+		kids = append(kids, next)
+		for l := 0; l < legs; l++ {
+			if side == 0 || side == 2 && l%2 == 1 {
+				kids = append(kids, &newick.Node{})
+			}
+		}
+		cur.Children = kids
+		cur = next
+	}
+	return root
+}
+
+// c18DeepStops: PreOrder / PostOrder stopped at EVERY position of deep trees —
+// chains, left / right / two-sided combs, recrossing arms, random deep trees —
+// whose depth is next to 2^4 … 2^10 (a fixed-size inline stack, a first stack
+// segment), and at sampled positions of trees 70000 levels deep. The small
+// random trees of the `memory` unit are at most a few levels deep.
+func c18DeepStops(c *Ctx) {
+	nodeKey := func(n *newick.Node) string { return fmt.Sprintf("%p", n) }
+	depths := []int{15, 16, 17, 31, 32, 33, 63, 64, 65, 127, 128, 129, 130, 200, 255, 256, 257, 300, 511, 512, 513}
+	if c.Thorough {
+		depths = append(depths, 1023, 1024, 1025, 1500)
+	}
+	idx := int64(0)
+	run := func(what string, mk func(r *rand.Rand) *newick.Node) {
+		c.Case(idx, func(k *K) {
+			root := mk(k.Rand())
+			k.Input("tree_shape", what)
+			stopMonitor(k, "Node.PreOrder", func() rawIter { return raw1(root.PreOrder(), nodeKey) }, stopOpts{limit: 400000})
+			stopMonitor(k, "Node.PostOrder", func() rawIter { return raw1(root.PostOrder(), nodeKey) }, stopOpts{limit: 400000})
+			k.Count("deep_trees_stopped", 1)
+			k.Nontrivial([]byte("deepstops"), []byte(what))
+		})
+		idx++
+	}
+	for _, d := range depths {
+		run(fmt.Sprintf("chain of depth %d", d), func(*rand.Rand) *newick.Node { t, _ := chainTree(d, 0); return t })
+		for side := 0; side < 3; side++ {
+			run(fmt.Sprintf("comb of depth %d, one leg per level, side %d", d, side), func(*rand.Rand) *newick.Node { return combTree(d, 1+side/2, side) })
+		}
+		run(fmt.Sprintf("spine of %d nodes, then 3 arms of 6", d-3), func(*rand.Rand) *newick.Node { t, _ := armsTree(max(1, d-3), 3, 6); return t })
+		run(fmt.Sprintf("random deep tree of %d nodes", 2*d), func(r *rand.Rand) *newick.Node { t, _ := randomTree(r, 2*d, 2); return t })
+	}
+	big := []int{20000}
+	if c.Thorough {
+		big = []int{70000, 1<<17 + 1}
+	}
+	for _, d := range big {
+		run(fmt.Sprintf("left comb of depth %d", d), func(*rand.Rand) *newick.Node { return combTree(d, 1, 0) })
+		run(fmt.Sprintf("two arms of %d nodes from the root", d), func(*rand.Rand) *newick.Node { t, _ := armsTree(1, 2, d); return t })
 	}
 }
 
